@@ -604,6 +604,16 @@ def check(model, rep):
             if length == 0:
                 return b
             return tm(a.TAA.reshape((6, 1)) + (diff[0:6] / length) * step)
+        """, """
+        def closeLinearGap(a, b, step):
+            diff = b - a
+            length = mr.Norm6(diff[0:6])
+            if length == 0:
+                return b
+            out = np.zeros((6, 1))
+            for k in range(6):
+                out[k] = (diff[k] / length) * step
+            return tm(a.TAA + out)
         """], 'closeLinearGap does not advance by exactly delta along the unit direction to the goal')
     MID = """
         def tmInterpMidpoint(a, b):
